@@ -30,6 +30,25 @@ CHECKS = {
         "results must pass is_valid_for and an independently written validity predicate; the in-place, destination and value-returning forms must agree bit-for-bit; must-refuse operands must panic.",
    ref="DESIGN.md 4/C06", note=HE_NOTE),
 }
+ARITH_NOTE = ("Trusted: TLC, spec/BigNat.tla + the definitions module, serde_json, rustc. Operands/results are recorded by the harness from the real functions; "
+              "quotient hints are computed by bin/check in Python and are untrusted (a wrong hint can only cause rejection). Universal claims over all 61-bit moduli / "
+              "128-bit operands are sampled (boundary + random), exhaustive only on the small domain stated.")
+CHECKS.update({
+ "C08": dict(cat="model_checking", tech="trace validation (impl->spec): every recorded call of a primitive is checked by TLC against its mathematical definition in spec/WordArith.tla over BigNat.tla",
+   text="Every word-level modular primitive and multi-word helper is called on (i) all operand pairs of 12 (quick) / all 126 (thorough) moduli below 2^7, (ii) boundary and random operands for the "
+        "smallest/largest/random/NTT-prime modulus of 13 (quick) / all 60 (thorough) bit lengths 2..61, (iii) 1..8-word integers with carry patterns; TLC evaluates the exact-integer definition "
+        "(r = a*b mod m as a*b = k*m + r /\\ r < m etc.) on every event and lists every event that fails.", ref="DESIGN.md 4/C08", note=ARITH_NOTE),
+ "C14": dict(cat="model_checking", tech="trace validation (impl->spec): recorded write-call sequences and sizes of every catalogue object checked by TLC against the wire grammar Layout(shape) of spec/Serialize.tla",
+   text="For 3 (quick) / 9 (thorough) parameter sets with residue widths 1..8 bytes, ~64 objects each (all serializable types, seeded and expanded, sizes 2/3/7, both representations, all three "
+        "ciphertext formats with 4 term subsets, containers incl. empty): TLC checks that the sequence of write widths equals the grammar, that announced = returned = written = consumed = Size(shape), "
+        "and that same-context, independent-context, two-objects-in-one-stream round trips and follow-up use of the restored object are exact.", ref="DESIGN.md 4/C14",
+   note="Trusted: TLC, spec/Serialize.tla, the shape projection and byte-wise equality in harness/src/ser.rs. Values of objects are random; only the enumerated shapes are covered."),
+ "C15": dict(cat="fault_enumeration", tech="TLC enumerates writer fault scripts over spec/SerializeFaults.tla (and refutes the single-write deviation); each script and every truncation offset replayed on the real (de)serializers",
+   text="All scripts (acceptance limits 1..8 for the first calls x failing call index) enumerated by TLC for 12 (quick) / all ~64 (thorough) catalogue objects together with the outcome of the write_all "
+        "design; every script is executed against the real serializer with a scripted writer (Ok must mean the complete encoding reached the sink, otherwise Err, never a panic), and every truncation "
+        "offset 0..len of every object's encoding is fed to the real deserializer (must be Err, never a panic or an object).", ref="DESIGN.md 4/C15",
+   note="Trusted: TLC, spec/SerializeFaults.tla, the scripted writer / truncating reader in harness/src/ser.rs. Fault model = short writes and one failing call; readers that return short reads are not modelled."),
+})
 NA_REASON = "check not built yet in this round (work in progress; see DESIGN.md section 8)"
 EXTRA = os.path.join(ROOT, "lib", "manifest_extra.json")
 
